@@ -300,6 +300,7 @@ class Engine:
             # re-make inputs so that mutable symbolic values are fresh per path (same names => same symbols)
             made = self.c.make_inputs()
             args = made["args"]
+            self.ghost = made.get("ghost", {})
             self.inputs = {k: (v.snapshot() if isinstance(v, SymSeq) else v) for k, v in args.items()}
             self.env = dict(args)
             self.pure = 0
